@@ -139,10 +139,10 @@ package ckks
 //@   requires old(cmpval(op0.MetaData.PlaintextMetaData.Scale, op1.MetaData.PlaintextMetaData.Scale)) == 0
 //@   requires isntt(op0.Value[0]) && isntt(op0.Value[1]) && isntt(op1.Value[0]) && isntt(op1.Value[1]) && mexp(op0.Value[0]) == 0 && mexp(op0.Value[1]) == 0 && mexp(op1.Value[0]) == 0 && mexp(op1.Value[1]) == 0
 //@   ensures implies(isnil(err), val(opOut.Value[0]) == old(val(op0.Value[0])) + old(val(op1.Value[0])) && val(opOut.Value[1]) == old(val(op0.Value[1])) + old(val(op1.Value[1])))
-//@   ensures implies(isnil(err) && len(op0.Value) == 3 && len(op1.Value) == 2, len(opOut.Value) == 3 && val(opOut.Value[2]) == old(val(op0.Value[2])))
-//@   ensures implies(isnil(err) && len(op0.Value) == 2 && len(op1.Value) == 3, len(opOut.Value) == 3 && val(opOut.Value[2]) == old(val(op1.Value[2])))
-//@   ensures implies(isnil(err) && len(op0.Value) == 2 && len(op1.Value) == 2 && old(len(opOut.Value)) == 2, len(opOut.Value) == 2)
-//@   ensures implies(isnil(err) && len(op0.Value) == 2 && len(op1.Value) == 2 && old(len(opOut.Value)) == 3, len(opOut.Value) == 3 && val(opOut.Value[2]) == 0)
+//@   ensures implies(isnil(err) && old(len(op0.Value)) == 3 && old(len(op1.Value)) == 2, len(opOut.Value) == 3 && val(opOut.Value[2]) == old(val(op0.Value[2])))
+//@   ensures implies(isnil(err) && old(len(op0.Value)) == 2 && old(len(op1.Value)) == 3, len(opOut.Value) == 3 && val(opOut.Value[2]) == old(val(op1.Value[2])))
+//@   ensures implies(isnil(err) && old(len(op0.Value)) == 2 && old(len(op1.Value)) == 2 && old(len(opOut.Value)) == 2, len(opOut.Value) == 2)
+//@   ensures implies(isnil(err) && old(len(op0.Value)) == 2 && old(len(op1.Value)) == 2 && old(len(opOut.Value)) == 3, len(opOut.Value) == 3 && val(opOut.Value[2]) == 0)
 
 //@ afunc Evaluator.Sub#ct
 //@   property C06
@@ -161,10 +161,10 @@ package ckks
 //@   requires old(cmpval(op0.MetaData.PlaintextMetaData.Scale, op1.MetaData.PlaintextMetaData.Scale)) == 0
 //@   requires isntt(op0.Value[0]) && isntt(op0.Value[1]) && isntt(op1.Value[0]) && isntt(op1.Value[1]) && mexp(op0.Value[0]) == 0 && mexp(op0.Value[1]) == 0 && mexp(op1.Value[0]) == 0 && mexp(op1.Value[1]) == 0
 //@   ensures implies(isnil(err), val(opOut.Value[0]) == old(val(op0.Value[0])) - old(val(op1.Value[0])) && val(opOut.Value[1]) == old(val(op0.Value[1])) - old(val(op1.Value[1])))
-//@   ensures implies(isnil(err) && len(op0.Value) == 3 && len(op1.Value) == 2, len(opOut.Value) == 3 && val(opOut.Value[2]) == old(val(op0.Value[2])))
-//@   ensures implies(isnil(err) && len(op0.Value) == 2 && len(op1.Value) == 3, len(opOut.Value) == 3 && val(opOut.Value[2]) == 0 - old(val(op1.Value[2])))
-//@   ensures implies(isnil(err) && len(op0.Value) == 2 && len(op1.Value) == 2 && old(len(opOut.Value)) == 2, len(opOut.Value) == 2)
-//@   ensures implies(isnil(err) && len(op0.Value) == 2 && len(op1.Value) == 2 && old(len(opOut.Value)) == 3, len(opOut.Value) == 3 && val(opOut.Value[2]) == 0)
+//@   ensures implies(isnil(err) && old(len(op0.Value)) == 3 && old(len(op1.Value)) == 2, len(opOut.Value) == 3 && val(opOut.Value[2]) == old(val(op0.Value[2])))
+//@   ensures implies(isnil(err) && old(len(op0.Value)) == 2 && old(len(op1.Value)) == 3, len(opOut.Value) == 3 && val(opOut.Value[2]) == 0 - old(val(op1.Value[2])))
+//@   ensures implies(isnil(err) && old(len(op0.Value)) == 2 && old(len(op1.Value)) == 2 && old(len(opOut.Value)) == 2, len(opOut.Value) == 2)
+//@   ensures implies(isnil(err) && old(len(op0.Value)) == 2 && old(len(op1.Value)) == 2 && old(len(opOut.Value)) == 3, len(opOut.Value) == 3 && val(opOut.Value[2]) == 0)
 
 // ---- ciphertext +- scalar: the scalar is encoded at the scale of the ciphertext, so the output records
 // ---- the scale of the input whatever the receiver held (finding F34), has the degree of the input,
